@@ -123,7 +123,17 @@ class C05(Base):
             N = draw_N(rng, rfmax, small=max(10, rfmax // 6))
             s = rng.choice((1, 1, 2, 2, 3, 4, 5, 6, 8, N, N + 1))
             s = max(1, min(s, 14))
-            cfg = {"cls": "Revolve", "N": N, "p": dict(draw_costs(rng), s=s)}
+            costs = draw_costs(rng)
+            if rng.random() < 0.12:
+                # badly scaled (still exactly representable) cost vectors
+                big = rng.choice(("1048576", "1073741824", "17179869184"))
+                if rng.random() < 0.5:
+                    costs.update(uf="1", ub=big)
+                else:
+                    costs.update(uf=rng.choice(("1/1048576", "1")), ub="1")
+                    if costs["uf"] == "1":
+                        costs["uf"], costs["ub"] = big, "1"
+            cfg = {"cls": "Revolve", "N": N, "p": dict(costs, s=s)}
             units = s
         slots = others[:1] + [(cfg, 1, "every")] + others[1:]
         if N > 1 or units >= 1:
